@@ -655,6 +655,18 @@ func (p *Process) ThrowAll(ctx context.Context) error {
 	return nil
 }
 
+// ownStartEvent tells whether the start event is one of this process's own: the
+// traces of the sub-processes inside it arrive on the same tracer, and their
+// start events are not start events of this scope.
+func (p *Process) ownStartEvent(startEvent *schema.StartEvent) bool {
+	for i := range *p.element.StartEvents() {
+		if &(*p.element.StartEvents())[i] == startEvent {
+			return true
+		}
+	}
+	return false
+}
+
 func (p *Process) ceaseFlowMonitor(tracer tracing.ITracer) func(ctx context.Context, sender tracing.ISenderHandle) {
 	// Subscribing to traces early as otherwise events produced
 	// after the goroutine below is started are not going to be
@@ -697,12 +709,16 @@ func (p *Process) ceaseFlowMonitor(tracer tracing.ITracer) func(ctx context.Cont
 				case TerminationTrace:
 					switch flowNode := t.Source.(type) {
 					case *schema.StartEvent:
-						startEventsActivated = append(startEventsActivated, flowNode)
+						if p.ownStartEvent(flowNode) {
+							startEventsActivated = append(startEventsActivated, flowNode)
+						}
 					}
 				case FlowTrace:
 					switch flowNode := t.Source.(type) {
 					case *schema.StartEvent:
-						startEventsActivated = append(startEventsActivated, flowNode)
+						if p.ownStartEvent(flowNode) {
+							startEventsActivated = append(startEventsActivated, flowNode)
+						}
 					}
 				}
 			case <-ctx.Done():
